@@ -85,6 +85,9 @@ pub struct Tuple {
     /// longer stale files already sit at the `-o FILE` paths of parse and compile (durable state of an earlier run)
     pub stale: bool,
     pub hash_seed: u64,
+    /// Some(stage): the plan of that stage holds a *hard* I/O error (disk full, EIO on read, ...). Then the stage may fail, and
+    /// the only demand is the narrow one: a stage that reports success has handed over exactly the right program (judge_hard).
+    pub hard_stage: Option<usize>,
 }
 
 pub const INPUT_NAMES: &[&str] = &["prog.fml", "prog.fml", "job.1.fml", "my prog.fml", "prog.v2.final.fml", "прог.fml", "noext", "a.b", "UPPER.FML", "x.json.fml", "trailing.dot..fml"];
@@ -93,7 +96,7 @@ impl Tuple {
     pub fn to_json(&self) -> Value {
         json!({"format": self.format.ext(), "parse_flag": self.parse_flag, "parse_stdin": self.parse_stdin, "parse_out": self.parse_out.name(),
                "compile_flag": self.compile_flag, "compile_stdin": self.compile_stdin, "compile_out": self.compile_out.name(), "exec_stdin": self.exec_stdin,
-               "profile": self.profile.name(), "plans": self.plans, "wrapper": self.wrapper, "input_name": self.input_name, "stale": self.stale, "hash_seed": self.hash_seed})
+               "profile": self.profile.name(), "plans": self.plans, "wrapper": self.wrapper, "input_name": self.input_name, "stale": self.stale, "hash_seed": self.hash_seed, "hard_stage": self.hard_stage})
     }
     pub fn from_json(v: &Value) -> Option<Tuple> {
         let plans = v.get("plans")?.as_array()?;
@@ -112,6 +115,7 @@ impl Tuple {
             input_name: v.get("input_name").and_then(|x| x.as_str()).unwrap_or("prog.fml").to_string(),
             stale: v.get("stale").and_then(|x| x.as_bool()).unwrap_or(false),
             hash_seed: v.get("hash_seed")?.as_u64()?,
+            hard_stage: v.get("hard_stage").and_then(|x| x.as_u64()).map(|x| x as usize),
         })
     }
 
@@ -149,13 +153,14 @@ impl Tuple {
             input_name: (*rng.pick(INPUT_NAMES)).to_string(),
             stale: rng.below(4) == 0,
             hash_seed: rng.next_u64(),
+            hard_stage: None,
         }
     }
 
     pub fn plain(format: Fmt, profile: Profile) -> Tuple {
         Tuple { format, parse_flag: Some(format.ext().to_string()), parse_stdin: false, parse_out: Chan::OFile, compile_flag: None, compile_stdin: false,
                 compile_out: Chan::OFile, exec_stdin: false, profile, plans: [String::new(), String::new(), String::new()], wrapper: false,
-                input_name: "prog.fml".into(), stale: false, hash_seed: 11 }
+                input_name: "prog.fml".into(), stale: false, hash_seed: 11, hard_stage: None }
     }
 }
 
@@ -236,6 +241,24 @@ pub struct Staged {
     pub children: u64,
     pub faults_fired: u64,
     pub budget_exceeded: bool,
+    /// intercepted calls per stage and class (o f i r), from the shim trace: where a hard fault can be placed
+    pub calls: [[u64; 4]; 3],
+    /// hard errors the shim actually answered with, per stage
+    pub hard_fired: [u64; 3],
+    /// exit of each stage that ran
+    pub exits: [Option<Exit>; 3],
+}
+
+fn count_calls(trace: &str) -> [u64; 4] {
+    let mut c = [0u64; 4];
+    for l in trace.lines() {
+        if l.starts_with("W o ") { c[0] += 1; } else if l.starts_with("W f ") { c[1] += 1; } else if l.starts_with("R i ") { c[2] += 1; } else if l.starts_with("R r ") { c[3] += 1; }
+    }
+    c
+}
+
+fn count_hard(trace: &str) -> u64 {
+    trace.lines().filter(|l| (l.starts_with("W ") || l.starts_with("R ")) && l.contains("-> E") && !l.ends_with("-> E4")).count() as u64
 }
 
 fn stage_shim(t: &Tuple, stage: usize) -> Option<ShimCfg> {
@@ -250,7 +273,7 @@ pub fn run_staged(source: &str, t: &Tuple) -> Staged {
     let dir = scratch_dir();
     let input_name: &str = if t.wrapper { "prog.fml" } else { t.input_name.as_str() };
     std::fs::write(dir.join(input_name), source).unwrap();
-    let mut st = Staged { ast_bytes: None, bc_bytes: None, exec: None, failed: None, children: 0, faults_fired: 0, budget_exceeded: false };
+    let mut st = Staged { ast_bytes: None, bc_bytes: None, exec: None, failed: None, children: 0, faults_fired: 0, budget_exceeded: false, calls: [[0; 4]; 3], hard_fired: [0; 3], exits: [None, None, None] };
     let ext = t.format.ext();
     if t.wrapper {
         // bash <repo>/fml run prog.fml with PARSER/COMPILER/INTERPRETER pointing at the binary
@@ -310,6 +333,9 @@ pub fn run_staged(source: &str, t: &Tuple) -> Staged {
     c.shim = stage_shim(t, 0);
     let r = run_child(&dir, &c);
     st.children += 1;
+    st.calls[0] = count_calls(&r.trace);
+    st.hard_fired[0] = count_hard(&r.trace);
+    st.exits[0] = Some(r.exit.clone());
     st.faults_fired += count_faults(&r.trace);
     st.budget_exceeded |= r.budget_exceeded();
     if !r.exit.is_success() {
@@ -378,6 +404,9 @@ pub fn run_staged(source: &str, t: &Tuple) -> Staged {
     c.shim = stage_shim(t, 1);
     let r = run_child(&dir, &c);
     st.children += 1;
+    st.calls[1] = count_calls(&r.trace);
+    st.hard_fired[1] = count_hard(&r.trace);
+    st.exits[1] = Some(r.exit.clone());
     st.faults_fired += count_faults(&r.trace);
     st.budget_exceeded |= r.budget_exceeded();
     if !r.exit.is_success() {
@@ -419,6 +448,9 @@ pub fn run_staged(source: &str, t: &Tuple) -> Staged {
     c.shim = stage_shim(t, 2);
     let r = run_child(&dir, &c);
     st.children += 1;
+    st.calls[2] = count_calls(&r.trace);
+    st.hard_fired[2] = count_hard(&r.trace);
+    st.exits[2] = Some(r.exit.clone());
     st.faults_fired += count_faults(&r.trace);
     st.budget_exceeded |= r.budget_exceeded();
     st.exec = Some(r);
@@ -599,11 +631,103 @@ pub fn judge(prep: &Prepared, t: &Tuple, direct: &ChildResult, st: &Staged) -> O
     None
 }
 
+/// Where a hard fault can be placed in stage `stage` of tuple `t`: (class letter, number of calls the fault-free stage made).
+fn hard_sites(t: &Tuple, stage: usize, calls: &[[u64; 4]; 3]) -> Vec<(char, u64)> {
+    let mut v = Vec::new();
+    let c = calls[stage];
+    // output side: parse and compile only (an unwritable stdout of the *guest* is no property's subject)
+    if stage < 2 {
+        let out = if stage == 0 { &t.parse_out } else { &t.compile_out };
+        match out { Chan::OFile | Chan::ODir => v.push(('f', c[1])), Chan::StdoutFile | Chan::StdoutPipe => v.push(('o', c[0])) }
+    }
+    // input side
+    let stdin = match stage { 0 => t.parse_stdin, 1 => t.compile_stdin, _ => t.exec_stdin };
+    if stdin { v.push(('i', c[2])); } else { v.push(('r', c[3])); }
+    v.into_iter().filter(|(_, n)| *n > 0).collect()
+}
+
+/// A hard-fault plan for one stage: the disk fills up (short write, then ENOSPC-like error), the medium fails (EIO on a read,
+/// possibly after a short delivery), a quota is hit — placed inside the stage's own I/O, biased to its last calls (where the
+/// implicit flush of a buffered writer happens).
+pub fn hard_plan(rng: &mut Rng, sites: &[(char, u64)]) -> String {
+    let (cls, n) = *rng.pick(sites);
+    let at = match rng.below(4) { 0 => 0, 1 | 2 => n - 1, _ => rng.below(n) };
+    let is_write = cls == 'o' || cls == 'f';
+    let errno = if is_write { *rng.pick(&[28u32, 28, 5, 122, 27, 32]) } else { 5 };
+    match rng.below(4) {
+        // the error arrives at call `at`
+        0 => format!("{}:{}:x:{}", cls, at, errno),
+        // ... once only: the next call would succeed again
+        3 => format!("{}:{}:y:{}", cls, at, errno),
+        // call `at` is accepted only in part (a seeded number of bytes), the next call fails: what a filling disk looks like
+        1 => format!("{}:{}:s:{};{}:{}:x:{}", cls, at, rng.pick(&[1u32, 7, 60, 100, 119, 500, 1000, 4000, 8000]), cls, at + 1, errno),
+        // all but the last byte of call `at`, then the error
+        _ => format!("{}:{}:b:0;{}:{}:x:{}", cls, at, cls, at + 1, errno),
+    }
+}
+
+/// The narrow oracle under a hard I/O error (DESIGN §3.5): the faulted stage may fail, and then nothing more is claimed; but a
+/// stage that reports success must have handed over exactly the program it was given — never a truncated, empty or different one.
+pub fn judge_hard(prep: &Prepared, t: &Tuple, direct: &ChildResult, st: &Staged) -> Option<Verdict> {
+    let hs = t.hard_stage.unwrap_or(0);
+    let sig = |oracle: &str, extra: Value| {
+        let mut m = json!({"engine": ENGINE, "oracle": oracle, "format": t.format.ext(), "ast_depth": prep.depth, "hard_stage": hs,
+                           "json_nesting": prep.json_nesting, "lisp_nesting": prep.lisp_nesting});
+        if let (Some(a), Some(b)) = (m.as_object_mut(), extra.as_object()) {
+            for (k, v) in b { a.insert(k.clone(), v.clone()); }
+        }
+        m
+    };
+    let stage_name = ["parse", "compile", "execute"];
+    if st.exits.iter().flatten().any(|e| *e == Exit::Timeout) || direct.exit == Exit::Timeout { return None; }
+    if st.hard_fired[hs] == 0 { return None; } // the fault never fired (the stage made fewer calls this time): nothing was tested
+    // a stage that exits 0 without leaving its output at all
+    if let Some(f) = &st.failed {
+        if f.exit.is_success() {
+            return Some(Verdict { oracle: "O7:success_reported_after_io_error_but_output_incomplete".into(),
+                detail: format!("{} stage exited 0 after a hard I/O error ({}) but {}", f.stage, t.plans[hs], first_line(&f.message, 120)), signature: sig("O7", json!({"stage": f.stage})) });
+        }
+    }
+    if st.exits[0] == Some(Exit::Code(0)) {
+        if let Some(ast_bytes) = &st.ast_bytes {
+            let text = String::from_utf8_lossy(ast_bytes).to_string();
+            let back = catch(|| t.format.serializer().deserialize(&text).ok()).ok().flatten();
+            match back {
+                Some(a) if a == prep.ast => {}
+                Some(_) => return Some(Verdict { oracle: "O7:success_reported_after_io_error_but_a_different_program_handed_over".into(),
+                    detail: format!("parse stage exited 0 after a hard I/O error ({}); the {} file it left ({} bytes) is a valid AST of a different program", t.plans[hs], t.format.ext(), ast_bytes.len()),
+                    signature: sig("O7", json!({"stage": "parse"})) }),
+                None => return Some(Verdict { oracle: "O7:success_reported_after_io_error_but_output_incomplete".into(),
+                    detail: format!("parse stage exited 0 after a hard I/O error ({}); the {} file it left ({} bytes) does not reload", t.plans[hs], t.format.ext(), ast_bytes.len()),
+                    signature: sig("O7", json!({"stage": "parse"})) }),
+            }
+        }
+    }
+    if st.exits[1] == Some(Exit::Code(0)) {
+        if let Some(bc) = &st.bc_bytes {
+            if bc != &prep.reference {
+                return Some(Verdict { oracle: "O7:success_reported_after_io_error_but_a_different_program_handed_over".into(),
+                    detail: format!("compile stage exited 0 after a hard I/O error ({}) in the {} stage; its image has {} bytes, the reference {} bytes", t.plans[hs], stage_name[hs], bc.len(), prep.reference.len()),
+                    signature: sig("O7", json!({"stage": "compile"})) });
+            }
+        }
+    }
+    if let Some(e) = &st.exec {
+        if e.exit.is_success() && (!direct.exit.is_success() || e.stdout != direct.stdout) {
+            return Some(Verdict { oracle: "O7:success_reported_after_io_error_but_a_different_program_ran".into(),
+                detail: format!("execute exited 0 after a hard I/O error ({}) in the {} stage with {} bytes of stdout; run: {} with {} bytes", t.plans[hs], stage_name[hs], e.stdout.len(), direct.exit.show(), direct.stdout.len()),
+                signature: sig("O7", json!({"stage": "execute"})) });
+        }
+    }
+    None
+}
+
 pub fn replay_case(case: &Case) -> Result<Option<Verdict>, String> {
     let source = case.spec.source().ok_or("no source")?;
     let prep = match prepare(&source) { Some(p) => p, None => return Ok(None) };
     let direct = run_direct(&source, case.tuple.profile, case.tuple.hash_seed);
     let st = run_staged(&source, &case.tuple);
+    if case.tuple.hard_stage.is_some() { return Ok(judge_hard(&prep, &case.tuple, &direct, &st)); }
     Ok(judge(&prep, &case.tuple, &direct, &st))
 }
 
@@ -687,7 +811,7 @@ struct Out1 {
     sample: Option<Value>,
 }
 
-fn exercise(name: &str, spec: &ProgSpec, rng: &mut Rng, n_tuples: usize) -> Out1 {
+fn exercise(name: &str, spec: &ProgSpec, rng: &mut Rng, n_tuples: usize, n_hard: usize) -> Out1 {
     let mut out = Out1 { evaluations: 0, children: 0, faults: 0, distinct: vec![], counters: vec![], violations: vec![], sample: None };
     let source = match spec.source() { Some(s) => s, None => return out };
     let prep = match prepare(&source) {
@@ -754,12 +878,46 @@ fn exercise(name: &str, spec: &ProgSpec, rng: &mut Rng, n_tuples: usize) -> Out1
                 "ast_bytes": st.ast_bytes.as_ref().map(|b| b.len()), "bc_bytes": st.bc_bytes.as_ref().map(|b| b.len()), "exit": st.exec.as_ref().map(|e| e.exit.show())}));
         }
     }
+    // ---- hard I/O errors inside one stage (disk fills up, medium fails): the narrow oracle ---------------------
+    for _ in 0..n_hard {
+        let f = *rng.pick(&Fmt::ALL);
+        let mut t = Tuple::random(rng, f);
+        t.plans = [String::new(), String::new(), String::new()];
+        if !directs.iter().any(|(p, _)| *p == t.profile) {
+            directs.push((t.profile, run_direct(&source, t.profile, 17)));
+            out.children += 1;
+        }
+        let direct = &directs.iter().find(|(p, _)| *p == t.profile).unwrap().1;
+        // the fault-free pipeline first: it says how many calls each stage makes on each class, so that the fault lands inside
+        let clean = run_staged(&source, &t);
+        out.children += clean.children;
+        if clean.failed.is_some() || judge(&prep, &t, direct, &clean).is_some() { continue; } // the ordinary oracles' business
+        let stage = rng.usize_below(3);
+        let sites = hard_sites(&t, stage, &clean.calls);
+        if sites.is_empty() { continue; }
+        t.plans[stage] = hard_plan(rng, &sites);
+        t.hard_stage = Some(stage);
+        let st = run_staged(&source, &t);
+        out.children += st.children;
+        out.evaluations += 1;
+        out.distinct.push(digest_of(&(digest, &t)));
+        out.counters.push(("hard_fault_pipelines".into(), 1));
+        if st.hard_fired[stage] > 0 {
+            out.counters.push(("hard_fault_pipelines_in_which_the_error_fired".into(), 1));
+            out.counters.push((format!("hard_fault.stage_{}.{}", ["parse", "compile", "execute"][stage], if t.plans[stage].starts_with('o') || t.plans[stage].starts_with('f') { "write" } else { "read" }), 1));
+            let ex = st.exits[stage].clone();
+            out.counters.push((format!("hard_fault.faulted_stage_{}", match ex { Some(Exit::Code(0)) => "exits_0", Some(Exit::Code(_)) => "fails_cleanly", Some(Exit::Signal(_)) => "dies_by_signal", _ => "other" }), 1));
+        }
+        if let Some(v) = judge_hard(&prep, &t, direct, &st) {
+            out.violations.push((Case { spec: spec.clone(), tuple: t.clone() }, v));
+        }
+    }
     out
 }
 
 pub fn run(seed: u64, tier: &str, ev: &mut Evidence) -> Vec<Violation> {
     let thorough = tier == "thorough";
-    let (n_gen, n_tuples, n_nest) = if thorough { (30_000usize, 10usize, 3000usize) } else { (450, 6, 150) };
+    let (n_gen, n_tuples, n_nest, n_hard) = if thorough { (30_000usize, 10usize, 3000usize, 4usize) } else { (450, 6, 150, 2) };
     let mut specs: Vec<(String, ProgSpec)> = work::corpus_specs().into_iter().filter(|(_, s)| s.source().is_some()).map(|(n, s)| (format!("corpus:{}", n), s)).collect();
     for j in 0..n_gen {
         let mut rng = Rng::for_case(seed, "C06", "workload", j as u64);
@@ -787,7 +945,7 @@ pub fn run(seed: u64, tier: &str, ev: &mut Evidence) -> Vec<Violation> {
         let mut rng = Rng::for_case(seed, "C06", ENGINE, i as u64);
         super::util::breadcrumb("C06", json!({"kind": "program", "program": specs[i].1.to_json()}));
         let nt = if specs[i].0.starts_with("scale:") { 3 } else { n_tuples };
-        exercise(&specs[i].0, &specs[i].1, &mut rng, nt)
+        exercise(&specs[i].0, &specs[i].1, &mut rng, nt, if specs[i].0.starts_with("scale:") { 1 } else { n_hard })
     });
     // ---- batches into one output directory -----------------------------------------------------
     let n_batches = if thorough { 4000usize } else { 250 };
